@@ -1,0 +1,39 @@
+//! Verification hooks: thin `pub` wrappers around crate-private items so that an external
+//! harness crate can drive them. Compiled only with `--cfg zcash_librustzcash_verif`; adds no
+//! behaviour.
+
+use alloc::vec::Vec;
+use core::num::NonZeroUsize;
+
+use zcash_protocol::value::Zatoshis;
+
+use crate::{
+    denomination::CanonicalOneTwoFive,
+    engine::{MigrationState, MigrationTransferId},
+    satisfiability::DuenessTargets,
+    state::AdvanceStep,
+};
+
+/// `CanonicalOneTwoFive::with_max_notes(max_notes, buffer).unconstrained_split(..)`.
+pub fn unconstrained_split(
+    max_notes: NonZeroUsize,
+    transfer_fee_buffer: Zatoshis,
+    total_input_zatoshi: u64,
+    spendable_note_count: usize,
+    prep_tx_fee_zatoshi: u64,
+) -> Vec<u64> {
+    CanonicalOneTwoFive::with_max_notes(max_notes, transfer_fee_buffer).unconstrained_split(
+        total_input_zatoshi,
+        spendable_note_count,
+        prep_tx_fee_zatoshi,
+    )
+}
+
+/// `MigrationState::next_step`.
+pub fn next_step(
+    state: &MigrationState,
+    targets: DuenessTargets,
+    set_aside: &[MigrationTransferId],
+) -> AdvanceStep {
+    state.next_step(targets, set_aside)
+}
